@@ -333,6 +333,42 @@ def r02k(F):
 	out += P_accum_returned(F, '02.k', 'lightning::ln::channelmanager::ChannelManager::handle_channel_resumption', min_instances=2)
 	return out
 
+def r02l(F):
+	"""when one of OUR commitment transactions confirms, the HTLCs failed back at once are those missing from the commitment that CONFIRMED:
+	the previous holder commitment is compared with the previous commitment's HTLC data, the current one with the current data"""
+	out = []
+	fn = 'lightning::chain::channelmonitor::ChannelMonitorImpl::check_spend_holder_transaction'
+	fu = F.func(fn)
+	live = fu.reach([0])
+	def reads(field):
+		got = set()
+		for bi, si, st in fu.stmts():
+			if any(field in str(x) for x in (st[1], st[2])):
+				got.add(bi)
+		for b, ci in fu.calls():
+			if field in str(ci['args']):
+				got.add(b)
+		return got & live
+	rp, rc = reads('prev_holder_htlc_data'), reads('current_holder_htlc_data')
+	ok = False
+	where = None
+	if rp and rc:
+		for bi in sorted(live):
+			t = fu.blocks[bi]['t']
+			if t[1] != 'switch':
+				continue
+			succs = sorted(set(fu.succ(bi)))
+			if len(succs) != 2:
+				continue
+			r0 = fu.reach([succs[0]], removed_blocks={bi}); r1 = fu.reach([succs[1]], removed_blocks={bi})
+			e0, e1 = r0 - r1, r1 - r0
+			# one arm consults only the previous data, the other only the current data
+			if (rp & e0 and rc & e1 and not rp & e1 and not rc & e0) or (rp & e1 and rc & e0 and not rp & e0 and not rc & e1):
+				ok = True
+				where = fu.line_of(bi)
+	out.append(Result('02.l', ok, ('ok:' if ok else 'wrong-commitment:') + 'holder-commitment-htlc-data-per-arm', 'check_spend_holder_transaction: the HTLC set compared with the confirmed holder commitment is chosen per arm - previous commitment: prev_holder_htlc_data (%d read(s)), current: current_holder_htlc_data (%d read(s))%s' % (len(rp), len(rc), '' if ok else ' - an HTLC that has an output in the confirmed previous commitment but was already removed from the latest one would be failed back upstream while its output is still claimable downstream'), len(rp) + len(rc), where=F.where(fn, where)))
+	return out
+
 RULES = [
 	('02.a', 'a preimage from update_fulfill_htlc always reaches claim_funds_internal (message, chain and startup paths exist)', r02a),
 	('02.b', 'an RAA blocker is registered for every previous hop before the claim is handed upstream', r02b),
@@ -342,5 +378,6 @@ RULES = [
 	('02.f', 'monitor: on-chain fail-back only from matured events, confirmed funding spend or the closed-channel near-expiry rule', r02f),
 	('02.g', 'forwarding admission: fee and CLTV-delta inequalities; advertised delta >= MIN_CLTV_EXPIRY_DELTA', r02g),
 	('02.k', 'HTLCs to fail / forward collected by free_holding_cell_htlcs and handle_channel_resumption are returned at every exit', r02k),
+	('02.l', 'a confirmed holder commitment is compared with its own HTLC data (previous vs current) before failing back the HTLCs it lacks', r02l),
 	('02.j', 'forwards without an outgoing channel (intercepts / phantom): outgoing amount <= incoming amount and minimum CLTV delta', r02j),
 ]
